@@ -97,6 +97,7 @@ func c14SpecWide(spec string) bool {
 type c14Ctx struct {
 	r    *Run
 	seen map[string]bool
+	base map[string]*C14Res // per fixture: the unmutated package through the battery
 }
 
 // cs: full dump, in-process (rows are small).
@@ -492,6 +493,23 @@ func (c *c14Ctx) mutResult(m *c14Mut, res *C14Res) {
 		}
 		r.Fail(sig, what, 0, "# "+m.ident()+"\n"+m.line())
 	}
+	// does the damage show in a modelled value? (decoded rows, shared-string / styled cells, table sizes of a
+	// package that still opens; the streams of an encrypted container) — those mutants have Impl's outcome
+	// compared with Go's on a transcript line (cs/csz/gvc/sd, deduplicated by value); the others are enumeration only
+	if b := c.base[m.fix.name]; b != nil {
+		modelled := false
+		if m.fix.pw != "" {
+			modelled = m.level == "stream" || m.level == "ixml" || m.level == "cfb"
+		} else if res.Open == "ok" {
+			modelled = strings.Join(res.Specs, "|") != strings.Join(b.Specs, "|") ||
+				strings.Join(res.Cells, "|") != strings.Join(b.Cells, "|") || res.NSI != b.NSI || res.NXf != b.NXf
+		}
+		if modelled {
+			r.Stat("tie:mutant-in-modelled-value")
+		} else {
+			r.Stat("tie:mutant-enumeration-only")
+		}
+	}
 	// tie: decoded rows of every sheet -> cs/csz line; worker's workSheetReader must agree with the hook
 	for i, spec := range res.Specs {
 		if spec == "!" || spec == "~" || i >= len(res.Wsr) {
@@ -737,6 +755,10 @@ func runC14(r *Run, rng *Rng, replay string) {
 		}
 		r.Stat("corpus:fixture")
 	}
+	ctx.base = map[string]*C14Res{}
+	for i, f := range fx() {
+		ctx.base[f.name] = base[i]
+	}
 	var maxMs int64
 	var maxAlloc uint64
 	for i, m := range sel {
@@ -751,6 +773,8 @@ func runC14(r *Run, rng *Rng, replay string) {
 		}
 		ctx.mutResult(m, results[i])
 	}
+	r.Notes = append(r.Notes, fmt.Sprintf("mutant->model tie: %d of %d executed mutants changed a modelled value (decoded rows, shared-string/styled cells, table sizes, encryption streams) and had Impl's outcome compared with Go's on a cs/csz/gvc/sd line (%d distinct lines); %d mutants are enumeration only",
+		r.Stats["tie:mutant-in-modelled-value"], len(sel), r.Stats["tie:cs"]+r.Stats["tie:gvc"]+r.Stats["tie:sd"], r.Stats["tie:mutant-enumeration-only"]))
 	r.Notes = append(r.Notes, fmt.Sprintf("workers %d (respawned %d times); slowest battery %d ms; largest allocation %d MiB; harness %.1fs", workers, pool.spawned-workers, maxMs, maxAlloc>>20, time.Since(t0).Seconds()))
 	for _, s := range r.opsSample(10) {
 		if len(s) > 300 {
